@@ -184,3 +184,186 @@ def check_rhs_monitor(prog: Prog, view, m: refsem.Model, do_monitor=True):
                           grow_cut=True)
     check_named_slots(prog, view, m, "rhs", "state", ders, "rhs", cut=cut)
     return cut
+
+
+# ----------------------------------------------------------------------------
+# views
+# ----------------------------------------------------------------------------
+def make_view(prog: Prog, ode, backend, label=None, **gen_kw):
+    """Generate with the real pipeline and wrap in a symbolic view (or None)."""
+    from .views import PyView, CView
+    from .irsym import CompileError
+
+    label = label or f"{backend}|get_code"
+    if backend == "c":
+        code = generate(prog, label, pipeline.gen_c, ode, **gen_kw)
+        if code is None:
+            return None
+        try:
+            v = CView(code)
+        except CompileError as e:
+            prog.fact(f"c|compile-ir", False, "CompileError", f"clang cannot compile the emitted C: {e.msg[:300]}")
+            return None
+        for cc, msg in v.compile_failures:
+            prog.fact(f"c|compile|{cc}", False, "CompileError", f"{cc} (default mode) rejects the emitted C: {msg[:300]}")
+        return v
+    code = generate(prog, label, pipeline.gen_py, ode, backend=backend, **gen_kw)
+    if code is None:
+        return None
+    try:
+        return PyView(code, backend)
+    except SyntaxError as e:
+        prog.fact(f"{backend}|parse", False, "SyntaxError", f"emitted module does not parse: {e}")
+    except ArtefactError as e:
+        prog.structural(f"{backend}|module", e)
+    return None
+
+
+def model_domain(prog: Prog, m: refsem.Model, names=None):
+    """Definedness of the model's expressions (for relational obligations)."""
+    ev = Evaluator(prog.ctx, m)
+    for n in (names or list(m.assigns)):
+        try:
+            ev.ev(m.assigns[n])
+        except RefError:
+            pass
+    return ev.dom
+
+
+def state_slots(view, m: refsem.Model):
+    imap = view.index_map("state")
+    return {s: imap[s] for s in m.states if s in imap}
+
+
+# ----------------------------------------------------------------------------
+# C05 explicit Euler
+# ----------------------------------------------------------------------------
+def check_euler(prog: Prog, view, m: refsem.Model, fn="explicit_euler", rhs_slots=None):
+    res = sym_function(prog, view, fn)
+    if res is None:
+        return None
+    slots, n, _ = res
+    if rhs_slots is None:
+        r = sym_function(prog, view, "rhs")
+        if r is None:
+            return None
+        rhs_slots = r[0]
+    c = prog.ctx
+    dom = model_domain(prog, m)
+    dt = c.inp("dt")
+    for s, idx in state_slots(view, m).items():
+        label = f"{view.backend}|{fn}|{s}"
+        if idx not in slots:
+            prog.fact(label, False, "SlotNotWritten", f"{fn} never writes slot {idx} ({s})")
+            continue
+        want = c.inp(f"s_{s}") + dt * rhs_slots[idx]
+        ge = (lambda inputs, idx=idx: view.concrete(fn, inputs)[idx])
+
+        def re_(inputs, idx=idx, s=s):
+            return inputs.get(f"s_{s}", 0.0) + inputs.get("dt", 0.0) * view.concrete("rhs", inputs)[idx]
+
+        prog.eq(label, dom, slots[idx], want, gen_eval=ge, ref_eval=re_, what=f"{fn}[{s}] vs states + dt*rhs")
+        # dt = 0 returns the input state
+        prog.eq(label + "|dt0", dom + [dt == 0], slots[idx], c.inp(f"s_{s}"), gen_eval=ge,
+                ref_eval=lambda inputs, s=s: inputs.get(f"s_{s}", 0.0), what=f"{fn}[{s}] at dt=0")
+    return slots
+
+
+# ----------------------------------------------------------------------------
+# C06 generalized Rush-Larsen / C07 hybrid
+# ----------------------------------------------------------------------------
+def rl_reference(prog: Prog, m: refsem.Model, s: str):
+    """(f term, g term, domain, g_ast) for state s with g = d f_s / d s, other names held fixed."""
+    fa = m.rate(s)
+    ga = refsem.diff(fa, s, m, expand=False)
+    ev = Evaluator(prog.ctx, m)
+    f = prog.ctx.real(ev.ev(fa))
+    g = prog.ctx.real(ev.ev(ga))
+    return f, g, ev.dom, ga
+
+
+def rl_concrete(m, s, fa, ga, delta):
+    import mpmath as mp
+
+    def ref(inputs):
+        env = env_from_inputs(m, inputs)
+        f = refsem.numeric(fa, env, m)
+        g = refsem.numeric(ga, env, m)
+        x = mp.mpf(inputs.get(f"s_{s}", 0.0))
+        dt = mp.mpf(inputs.get("dt", 0.0))
+        if abs(g) > delta:
+            return x + f / g * (mp.exp(g * dt) - 1)
+        return x + dt * f
+    return ref
+
+
+def check_grl(prog: Prog, view, m: refsem.Model, delta, fn="generalized_rush_larsen", only=None, tag=""):
+    res = sym_function(prog, view, fn, label=f"{view.backend}|{fn}{tag}|exec")
+    if res is None:
+        return None
+    slots, n, _ = res
+    c = prog.ctx
+    dt = c.inp("dt")
+    d = RV(smt.kappa_float(delta))
+    for s, idx in state_slots(view, m).items():
+        if only is not None and s not in only:
+            continue
+        label = f"{view.backend}|{fn}{tag}|{s}"
+        if idx not in slots:
+            prog.fact(label, False, "SlotNotWritten", f"{fn} never writes slot {idx} ({s})")
+            continue
+        try:
+            f, g, dom, ga = rl_reference(prog, m, s)
+        except (refsem.NotDifferentiable, RefError) as e:
+            prog.skip(label, f"reference differentiator: {e}")
+            continue
+        x = c.inp(f"s_{s}")
+        ge = (lambda inputs, idx=idx: view.concrete(fn, inputs)[idx])
+        re_ = rl_concrete(m, s, m.rate(s), ga, delta)
+        out = slots[idx]
+        euler = x + dt * f
+        if refsem._is_zero(ga):
+            prog.eq(label + "|g==0", dom, out, euler, gen_eval=ge, ref_eval=re_, what=f"{fn}[{s}] with g identically 0 must be Euler")
+            continue
+        rl = x + f / g * (c.exp(g * dt) - 1)
+        big = z3.Or(g > d, g < -d)
+        prog.eq(label + "|abs(g)>delta", dom + [big], out, rl, gen_eval=ge, ref_eval=re_,
+                what=f"{fn}[{s}] RL formula where |g|>{delta}")
+        prog.eq(label + "|abs(g)<=delta", dom + [z3.Not(big)], out, euler, gen_eval=ge, ref_eval=re_,
+                what=f"{fn}[{s}] Euler fallback where |g|<={delta}")
+        prog.eq(label + "|dt0", dom + [dt == 0], out, x, gen_eval=ge, ref_eval=re_, what=f"{fn}[{s}] at dt=0")
+    return slots
+
+
+# ----------------------------------------------------------------------------
+# init_*_values defaults (C02/C03/C04/C11)
+# ----------------------------------------------------------------------------
+def check_init_defaults(prog: Prog, view, m: refsem.Model):
+    for fn, kind, decl in (("init_state_values", "state", m.states), ("init_parameter_values", "parameter", m.params)):
+        if not view.has(fn):
+            prog.fact(f"{view.backend}|{fn}|exists", False, "MissingFunction", f"{fn} not emitted")
+            continue
+        if not decl:
+            continue
+        res = sym_function(prog, view, fn)
+        if res is None:
+            continue
+        slots, n, _ = res
+        imap = view.index_map(kind)
+        prog.fact(f"{view.backend}|{fn}|length", n == len(decl), "WrongLength",
+                  f"{fn} initialises {n} slots, model declares {len(decl)} {kind}s")
+        for name, val_ast in decl.items():
+            label = f"{view.backend}|{fn}|{name}"
+            if name not in imap or imap[name] not in slots:
+                prog.fact(label, False, "MissingIndex", f"{kind}_index/{fn} has no slot for {name}")
+                continue
+            idx = imap[name]
+            ev = Evaluator(prog.ctx, None)
+            try:
+                ref = ev.ev(val_ast)
+            except RefError as e:
+                prog.skip(label, f"reference: {e}")
+                continue
+            ge = (lambda inputs, idx=idx, fn=fn: view.concrete(fn, {})[idx])
+            re_ = (lambda inputs, a=val_ast: refsem.numeric(a, {}, None))
+            prog.eq(label, ev.dom, slots[idx], ref, gen_eval=ge, ref_eval=re_, what=f"{fn}[{kind}_index({name})={idx}] vs declared default")
